@@ -406,7 +406,7 @@ func runFF(r *Result, thorough bool, prop string) {
 			"accept/refuse compared with the Lean model of core.fastForward; oracle: accepted => the three conditions recomputed independently with distinct signers, refused => digest (events, blocks, peer sets, head, application) unchanged; node level: a hostile serving peer in front of the real Node.fastForward (application restore counted). " +
 			"non-trivial: triple obtained from a run and exactly one field changed"
 	} else {
-		r.Rule = "forged fast-forward responses: fresh keys, a self-made validator set of 1-4 members, internally consistent frame + block signed by the whole forged set (passes peer-hash, frame-hash and signature-count checks), against cores and real Nodes holding honest peer lists; " +
+		r.Rule = "forged fast-forward responses: fresh keys, a self-made validator set of 1-4 members, internally consistent frame + block signed by the whole forged set (passes peer-hash, frame-hash and signature-count checks), plain or decorated with entries under the keys of validators the victim knows (a copied stranger's signature, the known validators' signatures over another block, garbage), against cores and real Nodes holding honest peer lists; " +
 			"oracle: always refused, digest unchanged. non-trivial: the forged response is internally consistent"
 	}
 	rng := rand.New(rand.NewSource(r.Seed))
@@ -483,8 +483,34 @@ func runFF(r *Result, thorough bool, prop string) {
 			nodeLevelFF(r, rng, cl, blk0, frm0, src)
 		} else {
 			// C14: forged, internally consistent responses
-			for k := 0; k < 6; k++ {
+			for k := 0; k < 8; k++ {
 				fb, ff := forgeResponse(rng, 1+rng.Intn(4), blk0)
+				// decorations: entries filed under the keys of validators the victim knows, none of
+				// which is a signature of that validator over this block
+				switch k % 4 {
+				case 1: // a copy of a stranger's (valid) signature string under a known key
+					var any string
+					for _, sg := range fb.Signatures {
+						any = sg
+					}
+					for _, m := range cl.members[:len(cl.genesis)] {
+						if rng.Intn(2) == 0 || m == cl.members[0] {
+							fb.Signatures[m.hex] = any
+						}
+					}
+					r.Inc("forged_with_copied_signature", 1)
+				case 2: // the known validators' genuine signatures, but over another block
+					for _, m := range cl.members[:len(cl.genesis)] {
+						sig, _ := blk0.Sign(m.key)
+						fb.Signatures[m.hex] = sig.Signature
+					}
+					r.Inc("forged_with_replayed_signature", 1)
+				case 3: // garbage under known keys
+					for _, m := range cl.members[:len(cl.genesis)] {
+						fb.Signatures[m.hex] = "1f|2e"
+					}
+					r.Inc("forged_with_garbage_signature", 1)
+				}
 				victim := freshVictim()
 				before := victim.digest()
 				facts := factsOf(victim, fb, ff)
